@@ -260,6 +260,43 @@ func evalC09(c *Ctx, cs *Case) {
 				}
 			}
 		}
+		// --- (d) the SAME programmatic tree object: dry run first, then the real run on it. The
+		// dry run must predict what the real run of that very tree then creates.
+		for ri, root := range f {
+			if ri > 1 || hostile {
+				break
+			}
+			g := BuildRoot(root)
+			var o1 Outcome
+			rep := captureColorOutput(func() {
+				o1 = Guard(func() error {
+					return gtree.MkdirFromRoot(g, fsOpts("", exts, hasExt, true, false, false)...)
+				})
+			})
+			j3, err := mon.NewJail(c.TmpDir, true)
+			if err != nil {
+				continue
+			}
+			before := j3.Snap()
+			o2 := Guard(func() error { return gtree.MkdirFromRoot(g, fsOpts(j3.Target, exts, hasExt, false, false, false)...) })
+			diff := mon.Diff(before, j3.Snap())
+			j3.Remove()
+			mr := model.Merge(model.Forest{root})
+			want := expectedCreated(mr, exts, j3.Rel)
+			cs.Entry = "MkdirFromRoot[dryrun then real, same tree]"
+			c.Eval(gen.HashString(fkey+"\x00sametree"+strconv.Itoa(ei)+root.Name), merged.Size() >= 2)
+			c.SetAdd("entries", cs.Entry)
+			det := map[string]any{"forest": fkey, "root": root.Name, "ext": exts, "report": trunc(string(rep), 800), "dry_err": errStr(o1.Err), "real_err": errStr(o2.Err), "real_created": diff}
+			switch {
+			case o1.Panic != nil || o2.Panic != nil:
+				c.Violation(cs, "panic", "same-tree", det)
+			case (o1.Err == nil) != !nameReject(o2.Err):
+				c.Violation(cs, "dryrun.accept-differs-from-real", "same-tree", det)
+			case o1.Err == nil && o2.Err == nil && (string(rep) != model.DryRunReport(mr, model.DefaultBranch, exts) || !sameStrings(diff, want)):
+				det["want_created"] = want
+				c.Violation(cs, "dryrun.does-not-predict-real-run", "same-tree", det)
+			}
+		}
 		// stray dry-run option on Verify and Walk: no filesystem effect
 		{
 			j, err := mon.NewJail(c.TmpDir, true)
